@@ -67,10 +67,36 @@ type TypeSpec interface {
 // For most types, this is the type itself. For Typedefs, it is the root
 // TypeSpec of the Typedef's target.
 func RootTypeSpec(s TypeSpec) TypeSpec {
-	if t, ok := s.(*TypedefSpec); ok {
+	t, ok := s.(*TypedefSpec)
+	if !ok {
+		return s
+	}
+	if t.root != nil {
 		return t.root
 	}
-	return s
+
+	// The root was not cached when the typedef was linked because its target
+	// was itself still being linked at that point (a typedef chain that leads
+	// to a struct which refers back into the chain). Follow the targets.
+	visited := make(map[*TypedefSpec]struct{})
+	for {
+		if _, seen := visited[t]; seen {
+			return nil // typedef cycle; reported by findTypeCycles
+		}
+		visited[t] = struct{}{}
+
+		switch target := t.Target.(type) {
+		case *TypedefSpec:
+			if target.root != nil {
+				return target.root
+			}
+			t = target
+		case typeSpecReference, nil:
+			return nil // not linked yet
+		default:
+			return target
+		}
+	}
 }
 
 // nativeThriftType is the common parent for all TypeSpecs that are native
